@@ -180,7 +180,8 @@ func init() {
 		}
 		var scs []*engine.Scenario
 		scs = append(scs, &engine.Scenario{
-			Name: "C15-shrink-relations", Cfgs: cfgs([]int{1, 2}, []int{0}, one, relUniverse), Filters: relFilters(), Slots: 1,
+			Name: "C15-shrink-relations", Cfgs: append(cfgs([]int{1, 2}, []int{0}, one, relUniverse),
+				drv.Config{Cap: 8, CapRel: 1, Universe: relUniverse}, drv.Config{Universe: relUniverse}), Filters: relFilters(), Slots: 1,
 			Oracle:   drv.Oracle{World: true, Typed: true, Family: relFamily(), Filters: true, Lock: true},
 			Preludes: relPreludes(model.PathMapN),
 			Alphabet: concat(relAlphabet(relOpts{path: model.PathMapN, maxAlive: 5, batch: true, two: true, nTargets: 2}), shr, qf),
@@ -204,7 +205,18 @@ func init() {
 		if t == Thorough {
 			d = 5
 		}
-		st := func(m *model.Model) []model.Op { return []model.Op{{K: model.OpStats}} }
+		st := func(m *model.Model) []model.Op {
+			ops := []model.Op{{K: model.OpStats}}
+			for o := range m.Obs {
+				if m.ObsReg[o] {
+					ops = append(ops, model.Op{K: model.OpUnobserve, O: o})
+				} else {
+					ops = append(ops, model.Op{K: model.OpObserve, O: o})
+				}
+			}
+			return ops
+		}
+		statObs := []model.ObsSpec{{Event: model.EvCreateEntity}, {Event: model.EvAddComponents}, {Event: model.EvRemoveRelations}}
 		leaf := func(x *drv.World, sc *engine.Scenario, cfg drv.Config, hist []model.Op) *drv.Violation {
 			// incremental == from scratch: twin world replays the history without any Stats call
 			var h2 []model.Op
@@ -229,7 +241,7 @@ func init() {
 		}
 		var scs []*engine.Scenario
 		scs = append(scs, &engine.Scenario{
-			Name: "C19-stats-relations", Cfgs: cfgs([]int{1, 2}, []int{0}, one, relUniverse), Filters: relFilters(), Slots: 1,
+			Name: "C19-stats-relations", Cfgs: cfgs([]int{1, 2}, []int{0}, one, relUniverse), Filters: relFilters(), Slots: 1, Obs: statObs,
 			Oracle:   drv.Oracle{Stats: true, Lock: true},
 			Preludes: relPreludes(model.PathMapN)[1:],
 			Alphabet: concat(relAlphabet(relOpts{path: model.PathMapN, maxAlive: 5, batch: true, two: true, shrink: true, reset: true, nTargets: 2}), st,
@@ -240,6 +252,7 @@ func init() {
 		sc2 := plainScenario("C19-stats-batches", ob, cfgs([]int{1}, []int{0}, one, []ct.Comp{ct.P, ct.Q, ct.T9}), d,
 			drv.Oracle{Stats: true, Lock: true}, plainPreludes(ct.P, ct.Q, model.PathMapN))
 		sc2.Oracle.Family = nil
+		sc2.Obs = statObs[:2]
 		sc2.Alphabet = concat(plainAlphabet(ob), st)
 		sc2.Leaf = leaf
 		scs = append(scs, sc2)
